@@ -49,6 +49,8 @@ class MayKnobs(nested.NKnobs):
         self.p_cmds = 0.0             # gen_nested's own (queued-only) trigger commands: replaced by ours
         self.hist_kinds = (MAY, MAY, TRIGGER)
         self.p_bad_dest = 0.12        # per transition: destination not a registered state
+        self.p_global_dest = 0.0      # per LOCALLY declared transition: destination = a GLOBAL multi-segment name that does
+                                      # not resolve relative to the declaring state (get_state falls back to global names)
         self.p_raise = 0.07           # per scripted invocation of an evaluated callback (prepare_event/prepare/conditions)
         self.p_raise_other = 0.02     # per scripted invocation of any other callback but finalize
         self.p_on_exception = 0.5
@@ -91,6 +93,14 @@ def gen_may(rng, kn):
                     t['dest'] = list(t['dest'][:rng.randint(1, len(t['dest']))]) + [77]
                 else:
                     t['dest'] = list(t['source']) + [77]
+    # locally declared transitions whose destination only resolves as a GLOBAL name
+    if kn.p_global_dest:
+        paths = [list(p) for p, _n in nodes]
+        for scope, _ev, _i, t in d.all_trans():
+            if scope and t['dest'] is not None and rng.random() < kn.p_global_dest:
+                cands = [p for p in paths if len(p) > 1 and list(scope) + p not in paths]
+                if cands:
+                    t['dest'] = list(rng.choice(cands))
     # handlers
     if kn.p_on_exception and rng.random() < kn.p_on_exception:
         nxt = max(d.cb_slot) + 1 if d.cb_slot else 0
@@ -375,10 +385,20 @@ def last_segment(items):
     return items[idx:]
 
 
+def global_dest_locals(d):
+    """locally declared transitions whose destination does not resolve relative to the declaring state but is a
+    registered GLOBAL multi-segment name: (scope, event, index)"""
+    paths = [list(p) for p, _n in d.walk()]
+    return [(list(scope), ev, i) for scope, ev, i, t in d.all_trans()
+            if scope and t['dest'] is not None and len(t['dest']) > 1
+            and list(scope) + list(t['dest']) not in paths and list(t['dest']) in paths]
+
+
 def twin_oracle(d, cls, max_prefixes=4):
     """deterministic description: may_ vs the real trigger at prefixes of the history; returns (failures, checks, trues)"""
     out = []
     nodes = d.walk()
+    gdest = global_dest_locals(d)
     known = sorted(set([e for e, _ in d.events] + [e for _p, n in nodes for e, _ts in n['local']]))
     evs = known + [(max(known) if known else 0) + 3]
     checks = trues = 0
@@ -404,6 +424,14 @@ def twin_oracle(d, cls, max_prefixes=4):
                 out.append(('may-raised-without-a-raising-callback', info, 'C12.predict:nested:' + cls))
             elif may_val != executed:
                 out.append(('may-differs-from-trigger', info, 'C12.predict:nested:' + cls))
+            elif may_val and ob[0] == 'raised' and not any(it[0] == 'done' and it[2] == 1 for it in tseg):
+                # may_ answered True, no callback raised, and yet the trigger did not complete a transition: it raised
+                # from the library's own resolution of the transition
+                if gdest:
+                    out.append(('may-true-but-trigger-cannot-resolve-global-destination-of-local-transition',
+                                dict(info, local_global_dest=gdest[:4]), 'C12.predict:local-global-dest'))
+                else:
+                    out.append(('may-true-but-trigger-raises-by-itself', info, 'C12.predict:nested:' + cls))
             if out:
                 return out, checks, trues
     return out, checks, trues
@@ -562,6 +590,12 @@ STREAMS = {
                                               p_deep_initial=0.0, max_states=8, max_depth=3), True),
     'nested-twin': (lambda: MayKnobs(deterministic=True, p_bad_dest=0.0, p_on_exception=0.0, max_history=4, max_events=3,
                                      p_queued=0.0, p_cond_false=0.45), True),
+    # locally declared transitions naming a GLOBAL multi-segment destination (accepted by add_transition and by may_
+    # through get_state's fallback to global names, not enterable by _resolve_transition): the Lean model follows the
+    # fallback too (trace equality), the twin comparison reports the listed finding F-C12-local-global-dest
+    'nested-twin-globaldest': (lambda: MayKnobs(deterministic=True, p_bad_dest=0.0, p_global_dest=0.6, p_local=0.7,
+                                                p_on_exception=0.0, max_history=3, max_events=3, p_queued=0.0,
+                                                p_cond_false=0.3, max_roots=3, p_parallel=0.3), True),
 }
 
 
